@@ -1,7 +1,7 @@
 (* C11 - Generated multi-client support is correct under all thread interleavings. *)
 From Coq Require Import List NArith Bool Arith.
 From Dznpy Require Sem.Selector.
-From Dznpy Require Import Sem.Concurrent Sem.MutexWrapped Proofs.ConcurrentFacts Proofs.MutexFacts Proofs.SeqRefinement.
+From Dznpy Require Import Sem.Concurrent Sem.MutexWrapped Proofs.ConcurrentFacts Proofs.MutexFacts Proofs.SeqRefinement Proofs.HolderFacts.
 Import ListNotations.
 
 (* ---- the multi-client selector under every schedule of any number of client threads with arbitrary finite programs ---- *)
@@ -101,6 +101,28 @@ Print Assumptions C11_mutex_wrapped_no_double_unlock.
 Theorem C11_mutex_wrapped_invariant_reachable : forall n ops, MInv (snd (mrun (minit n) ops)).
 Proof. intros n ops. exact (mrun_inv ops _ (minit_inv n)). Qed.
 Print Assumptions C11_mutex_wrapped_invariant_reachable.
+
+(* ---- the positive half of the delivery clause, for every interleaving (partial: the full clause is refuted above) ----
+   [Hold c s]: c is selected, the component has the claim on record, no client (c included) is going to release or has a release
+   in flight, and no earlier granted claim still has its Select pending.  From such a state every out-event of every
+   continuation of every schedule is delivered to c, whatever the other clients claim or use in between. *)
+Theorem C11_holder_receives_until_release_partial : forall ls c s s', Hold c s -> run s ls = Some s' ->
+  Hold c s' /\ delivered s' = delivered s ++ repeat (Some c) (outs_in ls).
+Proof. exact holder_receives_all. Qed.
+Print Assumptions C11_holder_receives_until_release_partial.
+
+(* ... and such a state is what a granted claim's completed Select establishes when nothing of the kind is pending elsewhere *)
+Theorem C11_hold_established_by_completed_select : forall s c p s', claimed s = true ->
+  nth_error (clients s) c = Some {| prog := p; at_ := Locked OClaim true |} -> no_release p = true ->
+  (forall c' cl, c' <> c -> nth_error (clients s) c' = Some cl -> client_quiet cl = true) ->
+  Forall (fun e => snd e <> ORelease) (queue s) ->
+  step s (LFinish c) = Some s' -> Hold c s'.
+Proof. exact hold_after_select. Qed.
+Print Assumptions C11_hold_established_by_completed_select.
+
+(* non-vacuity of [Hold]: reachable with three clients of which two still claim and use *)
+Example C11_hold_reachable : exists s, run (init demo_progs) demo_prefix = Some s /\ Hold 0 s.
+Proof. exact hold_reachable. Qed.
 
 (* non-vacuity: a schedule on which the holder does receive the event, and a mutex history with blocking, reset and scope exit *)
 Example C11_holder_receives :
